@@ -393,6 +393,13 @@ func fenceMatchNearbys(
 	center := obj.Geo().Center()
 	minLat, minLon, maxLat, maxLon :=
 		geo.RectFromCenter(center.Y, center.X, fence.roam.meters)
+	if fence.roam.meters > 0 && minLat == maxLat && minLon == maxLon {
+		// RectFromCenter gives up on a radius below a third of a metre and
+		// hands back the centre. Search a box of one metre instead, the
+		// distance is tested for each candidate below.
+		minLat, minLon, maxLat, maxLon =
+			geo.RectFromCenter(center.Y, center.X, 1)
+	}
 	rect := geometry.Rect{
 		Min: geometry.Point{X: minLon, Y: minLat},
 		Max: geometry.Point{X: maxLon, Y: maxLat},
